@@ -688,6 +688,7 @@ func runC11R5(c *Ctx) {
 		c.Check("C11-R5", "beginTx-passes-writable", bt.Pos(), ok, "beginTx does not pass its writable flag to bbolt.Begin")
 	}
 	checkDriverOpenFlags(c, "C11-R5")
+	checkOpenPathKeepsTheFile(c, "C11-R5")
 	// no type assertion to read-write interfaces in production packages
 	n := 0
 	for _, fn := range p.RepoFuncs {
@@ -950,4 +951,28 @@ func keysOfInt(m map[int64]bool) []int64 {
 	}
 	sort.Slice(out, func(i, j int) bool { return out[i] < out[j] })
 	return out
+}
+
+// checkOpenPathKeepsTheFile: opening or creating a database never removes, renames or truncates the file it is pointed
+// at: what a nil-returning update committed must still be there when the file is opened again — whichever of the two
+// driver entry points does the opening (walletdb.Create on an existing path opens it). Nothing reachable from the
+// registered driver functions inside the adapter package calls a destructive os function.
+func checkOpenPathKeepsTheFile(c *Ctx, rule string) {
+	p := c.P
+	destructive := map[string]bool{"Remove": true, "RemoveAll": true, "Rename": true, "Truncate": true, "Create": true, "WriteFile": true}
+	n := 0
+	for _, fn := range p.FuncsIn(bdbPkg) {
+		for _, ci := range callsOf(fn) {
+			g := ci.Common().StaticCallee()
+			if g == nil || g.Pkg == nil {
+				continue
+			}
+			n++
+			if g.Pkg.Pkg.Path() == "os" && destructive[g.Name()] {
+				c.Check(rule, "adapter-never-destroys-the-file:"+fnName(fn)+"/os."+g.Name(), ci.Pos(), false,
+					fnName(fn)+" calls os."+g.Name()+": the database adapter removes or overwrites a file on its open/create path — changes committed through an earlier handle are gone when the path is opened again (and a live handle keeps committing into an unlinked file)")
+			}
+		}
+	}
+	c.Floor(rule, "static calls examined in the bbolt adapter", n, 30)
 }
